@@ -362,4 +362,232 @@ theorem valid_child {p : APath} (h : Valid L p) {x : Link} (hx : x ∈ exits L p
     simp only [score] at hs
     omega
 
+/-! ### the first result is a maximum over all paths from the seed nodes -/
+
+/-- some agenda entry has total score at least `T` -/
+def Wit (rem : Nat → Int) (T : Int) (ag : List APath) : Prop := ∃ a ∈ ag, T ≤ total rem a
+
+theorem insertGo_wit (rem : Nat → Int) (np : APath) (T : Int) : ∀ (k : Nat) (ag : List APath), Sorted rem ag →
+    (Wit rem T ag ∨ T ≤ total rem np) → Wit rem T (insertGo rem np (k + 1) ag) := by
+  intro k ag hs h
+  cases ag with
+  | nil =>
+    simp only [insertGo]
+    rcases h with ⟨a, ha, _⟩ | h
+    · cases ha
+    · exact ⟨np, by simp, h⟩
+  | cons p ps =>
+    simp only [insertGo]
+    unfold Sorted at hs
+    rw [List.pairwise_cons] at hs
+    split
+    · rcases h with ⟨a, ha, hT⟩ | h
+      · exact ⟨a, List.mem_cons_of_mem _ ha, hT⟩
+      · exact ⟨np, List.mem_cons_self, h⟩
+    · rename_i hnlt
+      refine ⟨p, List.mem_cons_self, ?_⟩
+      rcases h with ⟨a, ha, hT⟩ | h
+      · rcases List.mem_cons.1 ha with rfl | ha
+        · exact hT
+        · have := hs.1 a ha; omega
+      · omega
+
+theorem getLast?_mem {α : Type} : ∀ {l : List α} {a : α}, l.getLast? = some a → a ∈ l := by
+  intro l a h
+  exact List.mem_of_getLast? h
+
+theorem extendOne_wit (rem : Nat → Int) (mp : Nat) (p : APath) (T : Int) (ag : List APath) (x : Link)
+    (hs : Sorted rem ag)
+    (h : Wit rem T ag ∨ (rem x.dst > worstScore ∧ T ≤ total rem { nodes := x.dst :: p.nodes, score := p.score + x.ascr })) :
+    Wit rem T (extendOne rem (mp + 1) p ag x) := by
+  unfold extendOne
+  split
+  · rename_i hw
+    rcases h with h | ⟨h1, _⟩
+    · exact h
+    · omega
+  · simp only
+    split
+    · rename_i hrej
+      rcases h with h | ⟨_, h2⟩
+      · exact h
+      · -- rejected against the tail: the tail is a witness
+        unfold worseThanTail at hrej
+        cases hl : ag.getLast? with
+        | none => rw [hl] at hrej; simp at hrej
+        | some t =>
+          rw [hl] at hrej
+          simp only [decide_eq_true_eq] at hrej
+          exact ⟨t, getLast?_mem hl, by omega⟩
+    · apply insertGo_wit _ _ _ _ _ hs
+      rcases h with h | ⟨_, h2⟩
+      · exact Or.inl h
+      · exact Or.inr h2
+
+theorem extend_wit (rem : Nat → Int) (mp : Nat) (p : APath) (T : Int) :
+    ∀ (xs : List Link) (ag : List APath), Sorted rem ag →
+    (Wit rem T ag ∨ ∃ x ∈ xs, rem x.dst > worstScore ∧ T ≤ total rem { nodes := x.dst :: p.nodes, score := p.score + x.ascr }) →
+    Wit rem T (xs.foldl (extendOne rem (mp + 1) p) ag) := by
+  intro xs
+  induction xs with
+  | nil =>
+    intro ag _ h
+    rcases h with h | ⟨x, hx, _⟩
+    · exact h
+    · cases hx
+  | cons y ys ih =>
+    intro ag hs h
+    simp only [List.foldl_cons]
+    have hs' : Sorted rem (extendOne rem (mp + 1) p ag y) := extend_sorted rem (mp + 1) p [y] ag hs
+    apply ih _ hs'
+    rcases h with h | ⟨x, hx, h1, h2⟩
+    · exact Or.inl (extendOne_wit rem mp p T ag y hs (Or.inl h))
+    · rcases List.mem_cons.1 hx with rfl | hx
+      · exact Or.inl (extendOne_wit rem mp p T ag x hs (Or.inr ⟨h1, h2⟩))
+      · exact Or.inr ⟨x, hx, h1, h2⟩
+
+/-- the heuristic is attained by an exit -/
+def RemAttained (L : Lat) (rem : Nat → Int) : Prop :=
+  ∀ v, v < L.n → v ≠ L.final → ∃ x ∈ exits L v, rem x.dst > worstScore ∧ rem v = x.ascr + rem x.dst
+
+theorem astarNext_first (rem : Nat → Int) (hatt : RemAttained L rem) (mp : Nat) (T : Int)
+    (hcompl : ∀ p : APath, p.node < L.n → complete L p = false → p.node ≠ L.final)
+    (hfef : ∀ v, v < L.n → (L.node v).fef < L.nframes + 1)
+    (hdst : ∀ l ∈ L.links, l.dst < L.n) :
+    ∀ (fuel : Nat) (ag : List APath), Sorted rem ag → Wit rem T ag → (∀ a ∈ ag, a.node < L.n) →
+    ∀ p ag', astarNext L rem (mp + 1) fuel ag = some (p, ag') → T ≤ total rem p := by
+  intro fuel
+  induction fuel with
+  | zero => intro ag _ _ _ p ag' h; simp [astarNext] at h
+  | succ fuel ih =>
+    intro ag hs hw hn p ag' h
+    cases ag with
+    | nil => simp [astarNext] at h
+    | cons top rest =>
+      simp only [astarNext] at h
+      have hs' := hs
+      unfold Sorted at hs'
+      rw [List.pairwise_cons] at hs'
+      have htopn : top.node < L.n := hn top List.mem_cons_self
+      have hrestn : ∀ a ∈ rest, a.node < L.n := fun a ha => hn a (List.mem_cons_of_mem _ ha)
+      have htopT : T ≤ total rem top := by
+        obtain ⟨a, ha, hT⟩ := hw
+        rcases List.mem_cons.1 ha with rfl | ha
+        · exact hT
+        · have := hs'.1 a ha; omega
+      split at h
+      · cases h; exact htopT
+      · rename_i hc
+        have hc' : complete L top = false := by simpa using hc
+        rw [if_pos (hfef _ htopn), pathExtend_eq] at h
+        obtain ⟨x, hx, h1, h2⟩ := hatt top.node htopn (hcompl top htopn hc')
+        have hw' : Wit rem T ((exits L top.node).foldl (extendOne rem (mp + 1) top) rest) := by
+          apply extend_wit rem mp top T _ _ hs'.2
+          refine Or.inr ⟨x, hx, h1, ?_⟩
+          simp only [total, APath.node, List.headD_cons]
+          simp only [total, APath.node] at htopT h2
+          omega
+        have hn' : ∀ a ∈ (exits L top.node).foldl (extendOne rem (mp + 1) top) rest, a.node < L.n :=
+          extend_all rem (mp + 1) top (fun a => a.node < L.n) _ _ hrestn
+            (fun y hy _ => by simp only [APath.node, List.headD_cons]; exact hdst y (mem_exits.1 hy).1)
+        exact ih _ (extend_sorted rem (mp + 1) top _ _ hs'.2) hw' hn' p ag' h
+
+theorem astarNext_complete (rem : Nat → Int) (mp : Nat) : ∀ (fuel : Nat) (ag : List APath) (p : APath) (ag' : List APath),
+    astarNext L rem mp fuel ag = some (p, ag') → complete L p = true := by
+  intro fuel
+  induction fuel with
+  | zero => intro ag p ag' h; simp [astarNext] at h
+  | succ fuel ih =>
+    intro ag p ag' h
+    cases ag with
+    | nil => simp [astarNext] at h
+    | cons top rest =>
+      simp only [astarNext] at h
+      split at h
+      · rename_i hc; cases h; exact hc
+      · split at h
+        · exact ih _ p ag' h
+        · exact ih _ p ag' h
+
+theorem astarStart_wit (rem : Nat → Int) (mp : Nat) (T : Int) :
+    ∀ (vs : List Nat) (ag : List APath), Sorted rem ag →
+    (Wit rem T ag ∨ ∃ v ∈ vs, T ≤ total rem { nodes := [v], score := 0 }) →
+    Wit rem T (vs.foldl (fun ag v => pathInsert rem (mp + 1) ag { nodes := [v], score := 0 }) ag) := by
+  intro vs
+  induction vs with
+  | nil =>
+    intro ag _ h
+    rcases h with h | ⟨v, hv, _⟩
+    · exact h
+    · cases hv
+  | cons w ws ih =>
+    intro ag hs h
+    simp only [List.foldl_cons]
+    apply ih _ (insertGo_sorted _ _ _ _ hs)
+    rcases h with h | ⟨v, hv, hT⟩
+    · exact Or.inl (insertGo_wit rem _ T mp ag hs (Or.inl h))
+    · rcases List.mem_cons.1 hv with rfl | hv
+      · exact Or.inl (insertGo_wit rem _ T mp ag hs (Or.inr hT))
+      · exact Or.inr ⟨v, hv, hT⟩
+
+/-- a consistent heuristic that is 0 at the end node bounds the score of every path to the end -/
+theorem score_le_rem (rem : Nat → Int) (hcons : ∀ x ∈ L.links, x.ascr + rem x.dst ≤ rem x.src) (hfin : rem L.final = 0)
+    {u : Nat} {ls : List Link} (hp : Path L u ls L.final) : score ls ≤ rem u := by
+  generalize hw : L.final = w at hp
+  induction hp with
+  | nil => rw [← hw, hfin]; simp [score]
+  | @cons u x ls w hm hs _ ih =>
+    have := ih hw
+    have := hcons x hm
+    simp only [score, List.map_cons, List.sum_cons] at *
+    rw [hs] at *
+    omega
+
+/-- the fold of `remStep` returns its start value or the value of one of the exits -/
+theorem foldmax_attained (T : List Int) : ∀ (xs : List Link) (b : Int),
+    xs.foldl (fun best x => let s := T.getD x.dst worstScore + x.ascr; if s > best then s else best) b = b ∨
+    ∃ x ∈ xs, xs.foldl (fun best x => let s := T.getD x.dst worstScore + x.ascr; if s > best then s else best) b
+      = T.getD x.dst worstScore + x.ascr := by
+  intro xs
+  induction xs with
+  | nil => intro b; exact Or.inl rfl
+  | cons y ys ih =>
+    intro b
+    simp only [List.foldl_cons]
+    rcases ih (if T.getD y.dst worstScore + y.ascr > b then T.getD y.dst worstScore + y.ascr else b) with h | ⟨x, hx, h⟩
+    · rw [h]
+      split
+      · exact Or.inr ⟨y, List.mem_cons_self, rfl⟩
+      · exact Or.inl rfl
+    · exact Or.inr ⟨x, List.mem_cons_of_mem _ hx, h⟩
+
+/-- the heuristic table of the model is consistent on every link, zero at the end, and attained -/
+theorem remTable_exact {rank : Nat → Nat} (hrank : ∀ l ∈ L.links, rank l.src < rank l.dst)
+    (hM : ∀ l ∈ L.links, rank l.src < L.nframes + 2) (hsrc : ∀ l ∈ L.links, l.src < L.n)
+    (hne : ∀ l ∈ L.links, l.src ≠ L.final) (hfin : L.final < L.n)
+    (hnu : ∀ v, v < L.n → remTable L v > worstScore) :
+    (∀ x ∈ L.links, x.ascr + remTable L x.dst ≤ remTable L x.src) ∧ remTable L L.final = 0 ∧
+    (∀ v, v < L.n → v ≠ L.final → ∃ x ∈ exits L v, remTable L v = x.ascr + remTable L x.dst) := by
+  obtain ⟨h1, h2⟩ := remTable_ok hrank hM hsrc hne hfin
+  have hstable : ∀ v, (remLevel L (L.nframes + 2 + 1)).getD v worstScore = (remLevel L (L.nframes + 2)).getD v worstScore :=
+    fun v => remLevel_stable hrank (L.nframes + 2) hM (L.nframes + 2) v (by omega)
+  refine ⟨?_, h2, ?_⟩
+  · intro x hx
+    show x.ascr + (remLevel L (L.nframes + 2)).getD x.dst worstScore ≤ (remLevel L (L.nframes + 2)).getD x.src worstScore
+    rw [← hstable x.src]
+    show _ ≤ (remStep L (remLevel L (L.nframes + 2))).getD x.src worstScore
+    rw [remStep_get _ (hsrc x hx), if_neg (hne x hx)]
+    have := (foldmax_ge (remLevel L (L.nframes + 2)) (exits L x.src) worstScore).2 x (mem_exits.2 ⟨hx, rfl⟩)
+    omega
+  · intro v hv hvf
+    have := hnu v hv
+    have e : remTable L v = (remStep L (remLevel L (L.nframes + 2))).getD v worstScore := (hstable v).symm
+    rw [remStep_get _ hv, if_neg hvf] at e
+    rcases foldmax_attained (remLevel L (L.nframes + 2)) (exits L v) worstScore with h | ⟨x, hx, h⟩
+    · rw [h] at e; omega
+    · refine ⟨x, hx, ?_⟩
+      rw [e, h]
+      show _ = x.ascr + (remLevel L (L.nframes + 2)).getD x.dst worstScore
+      omega
+
 end SSVerif.Lattice
